@@ -106,18 +106,6 @@ Fixpoint chan_go (stack : list bytes) (t : tstate) (evs : list wevent) : res (li
       end
   end.
 
-(* exactly one root element; character data only inside it *)
-Fixpoint one_root (depth : nat) (seen : bool) (evs : list wevent) : bool :=
-  match evs with
-  | [] => seen
-  | WStart _ _ :: r => match depth with
-                       | O => negb seen && one_root 1 true r
-                       | S _ => one_root (S depth) seen r
-                       end
-  | WEnd :: r => match depth with O => false | S d => one_root d seen r end
-  | _ :: r => match depth with O => false | S _ => one_root depth seen r end
-  end.
-
 Definition wevent_legal (e : wevent) : bool :=
   match e with
   | WStart n a => forallb (fun kv => xml_legal (snd kv)) a
@@ -125,7 +113,13 @@ Definition wevent_legal (e : wevent) : bool :=
   | WChars s | WCData s => xml_legal s
   end.
 
+(* A document: at least one root element (the parser is configured with allow_multiple_root_elements, its
+   default), character data only inside elements, every element closed ([chan_go] checks the nesting). *)
 Definition channel (evs : list wevent) : res (list revent) :=
-  if one_root 0 false evs && forallb wevent_legal evs then
-    body <- chan_go [] t0 evs ;; Ok (RStartDoc :: body ++ [REndDoc])
-  else Err ERR_CHANNEL.
+  match evs with
+  | [] => Err ERR_CHANNEL
+  | _ =>
+      if forallb wevent_legal evs then
+        body <- chan_go [] t0 evs ;; Ok (RStartDoc :: body ++ [REndDoc])
+      else Err ERR_CHANNEL
+  end.
